@@ -1169,49 +1169,63 @@ pub fn cast(into: DataType) -> impl Function {
         ),
         DataType::Float(f) if f == data_type::Float::full() => Polymorphic::from((
             PartitionnedMonotonic::univariate(data_type::Integer::default(), |v| v as f64),
-            Pointwise::univariate(DataType::text(), DataType::float(), |v| {
-                v.to_string().parse::<f64>().unwrap().into()
-            }),
+            Pointwise::new(
+                DataType::text(),
+                DataType::float(),
+                Arc::new(|v| match v.to_string().parse::<f64>() {
+                    Ok(x) if !x.is_nan() => Ok(x.into()),
+                    _ => Err(Error::other(format!("Cannot cast {v} as float"))),
+                }),
+            ),
         )),
         DataType::Integer(i) if i == data_type::Integer::full() => Polymorphic::from((
             PartitionnedMonotonic::univariate(data_type::Float::default(), |v| v.round() as i64),
-            Pointwise::univariate(DataType::text(), DataType::integer(), |v| {
-                v.to_string().parse::<i64>().unwrap().into()
-            }),
+            Pointwise::new(
+                DataType::text(),
+                DataType::integer(),
+                Arc::new(|v| match v.to_string().parse::<i64>() {
+                    Ok(x) => Ok(x.into()),
+                    _ => Err(Error::other(format!("Cannot cast {v} as integer"))),
+                }),
+            ),
         )),
-        DataType::Boolean(b) if b == data_type::Boolean::full() => Polymorphic::default().with(
-            Pointwise::univariate(DataType::text(), DataType::boolean(), |v| {
-                let true_list = vec![
-                    "t".to_string(),
-                    "tr".to_string(),
-                    "tru".to_string(),
-                    "true".to_string(),
-                    "y".to_string(),
-                    "ye".to_string(),
-                    "yes".to_string(),
-                    "on".to_string(),
-                    "1".to_string(),
-                ];
-                let false_list = vec![
-                    "f".to_string(),
-                    "fa".to_string(),
-                    "fal".to_string(),
-                    "fals".to_string(),
-                    "false".to_string(),
-                    "n".to_string(),
-                    "no".to_string(),
-                    "off".to_string(),
-                    "0".to_string(),
-                ];
-                if true_list.contains(&v.to_string().to_lowercase()) {
-                    true.into()
-                } else if false_list.contains(&v.to_string().to_lowercase()) {
-                    false.into()
-                } else {
-                    panic!()
-                }
-            }),
-        ),
+        DataType::Boolean(b) if b == data_type::Boolean::full() => {
+            Polymorphic::default().with(Pointwise::new(
+                DataType::text(),
+                DataType::boolean(),
+                Arc::new(|v| {
+                    let true_list = vec![
+                        "t".to_string(),
+                        "tr".to_string(),
+                        "tru".to_string(),
+                        "true".to_string(),
+                        "y".to_string(),
+                        "ye".to_string(),
+                        "yes".to_string(),
+                        "on".to_string(),
+                        "1".to_string(),
+                    ];
+                    let false_list = vec![
+                        "f".to_string(),
+                        "fa".to_string(),
+                        "fal".to_string(),
+                        "fals".to_string(),
+                        "false".to_string(),
+                        "n".to_string(),
+                        "no".to_string(),
+                        "off".to_string(),
+                        "0".to_string(),
+                    ];
+                    if true_list.contains(&v.to_string().to_lowercase()) {
+                        Ok(true.into())
+                    } else if false_list.contains(&v.to_string().to_lowercase()) {
+                        Ok(false.into())
+                    } else {
+                        Err(Error::other(format!("Cannot cast {v} as boolean")))
+                    }
+                }),
+            ))
+        }
         _ => todo!(),
     }
 }
